@@ -113,6 +113,22 @@ def prelude(w, same_request: bool = False, idle_ms: int = 0, mode=None, closure=
         req.closure_requested = closure
     if narrow_dest_id and c.idw_b > 1:
         req.destination_id = UnsignedByteField(w.b.eid.value, 1)
+    # two thirds of the earlier requests carry fault handler overrides (Metadata options of THAT transaction): neither
+    # entity's own fault handler table may change because of them
+    osel = w.tape.choose(3, "prelude fault handler overrides")
+    if osel:
+        from spacepackets.cfdp import ConditionCode
+        from spacepackets.cfdp.defs import FaultHandlerCode
+        from spacepackets.cfdp.tlv import FaultHandlerOverrideTlv
+
+        sets = [
+            [(ConditionCode.POSITIVE_ACK_LIMIT_REACHED, FaultHandlerCode.IGNORE_ERROR), (ConditionCode.NAK_LIMIT_REACHED, FaultHandlerCode.IGNORE_ERROR),
+             (ConditionCode.CHECK_LIMIT_REACHED, FaultHandlerCode.IGNORE_ERROR)],
+            [(ConditionCode.CHECK_LIMIT_REACHED, FaultHandlerCode.ABANDON_TRANSACTION), (ConditionCode.FILE_CHECKSUM_FAILURE, FaultHandlerCode.NOTICE_OF_CANCELLATION),
+             (ConditionCode.FILESTORE_REJECTION, FaultHandlerCode.IGNORE_ERROR), (ConditionCode.POSITIVE_ACK_LIMIT_REACHED, FaultHandlerCode.ABANDON_TRANSACTION)],
+        ][osel - 1]
+        req.fault_handler_overrides = [FaultHandlerOverrideTlv(cc, hc) for cc, hc in sets]
+        w.probe("prelude_with_fault_handler_overrides")
     saved = (w.link.enabled, w.link.hook, dict(w.link.partition), w.pacing, w.fs_fault)
     w.link.enabled, w.link.hook, w.pacing, w.fs_fault = set(), None, "regular", None
     if lose_first_eof:
